@@ -1,3 +1,5 @@
+// generated-test harness: lints about unused helpers and stylistic patterns only add noise to the output of the checks
+#![allow(unused_mut, unused_imports, unused_parens, unused_variables, dead_code, irrefutable_let_patterns)]
 pub mod core;
 pub mod expr;
 pub mod exprgen;
